@@ -72,6 +72,8 @@ def run(cx):
                     if term_has_call(u, f"{CM}::KnownPeers::get"):
                         if mentions_field(u, "affinity"):
                             return "aff=" + lab
+                        if "affinity" in mapped_field_names(prog, u) and root[0] == "field" and root[1][0] == "variant":
+                            return "aff=" + lab         # payload of `known_peers.get(..).map(|info| info.affinity)`
                         return "known=" + lab
                     if term_has_call(u, "Config::max_concurrent_connections"):
                         return "limit=" + lab
@@ -143,9 +145,9 @@ def run(cx):
             ok = r_ is not u and r_[0] == "call" and name_matches(r_[1], "Future::poll")        # the Ok payload of `connecting.await`
         ob.require(ok, "lookup-key", f"known-peer lookup key is {show(t)}", b.path, b.loc(gs[0].bb))
         ob.require(mentions_upvar(arg_origin(gs[0], 0, o), "known_peers"), "lookup-map", "lookup not on the task's known_peers", b.path)
-        ls = b.calls_to(f"{CM}::ActivePeers::len")
+        ls = calls_with_closures(prog, b, f"{CM}::ActivePeers::len")         # also inside `limit.is_some_and(|l| .. len() ..)`
         ob.floor(ls, 1, "ActivePeers::len in admission", exact=True)
-        ob.require(mentions_upvar(arg_origin(ls[0], 0, o), "active_peers"), "len-map", "len() not on the task's active_peers", b.path)
+        ob.require(mentions_upvar(ls[0][1](0), "active_peers") or mentions_param(ls[0][1](0), "active_peers"), "len-map", f"len() not on the task's active_peers ({show(ls[0][1](0))[:60]})", b.path)
         ms = b.calls_to("anemo::config::Config::max_concurrent_connections")
         ob.require(len(ms) == 1 and mentions_upvar(arg_origin(ms[0], 0, o), "config"), "limit-config", "limit not read from the task's config", b.path)
         # ActivePeers::len -> inner().len() -> connections.len()
